@@ -16,3 +16,139 @@ def set_concurrency(spec):
         self.factory['PipelineSeries'].concurrency = n
         return app
     builder.Builder.build = build
+
+
+def instrument(spec):
+    """Log, in the order things happen on the event loop, what the robots gate of the REAL application does:
+    one JSON list per line appended to spec['c20_events'].  Nothing in wpull's behaviour is changed: every wrapper
+    calls the original and passes its result / exception through.
+
+      pick t url6 key            WebProcessorSession.process begins (t = index of the asyncio task = pipeline worker)
+      filters t verdict url6 key kind   FetchRule.consult_filters returned inside check_initial_web_request (kind initial) /
+                                        check_subsequent_web_request (kind sub: top of every _process_loop iteration)
+      fetchstart t key           RobotsTxtChecker.fetch_robots_txt begins
+      stored t key rulesets      RobotsTxtPool.load_robots_txt returned
+      req t url key              wpull.protocol.http.client.Session.start called (robots.txt session or item session)
+      resp t status location     ... returned a response   /  resperr t class: ... raised
+      status t name              ItemSession.set_status / skip
+      end t                      WebProcessorSession.process returned / raised
+    """
+    path = spec.get('c20_events')
+    if not path:
+        return
+    import asyncio
+    import json
+    import harness.compat as compat
+    import wpull.pipeline.session as psession
+    import wpull.processor.rule as rule
+    import wpull.processor.web as web
+    import wpull.protocol.http.client as client
+    import wpull.protocol.http.robots as robots
+    import wpull.robotstxt as robotstxt
+
+    out = open(path, 'a', buffering=1)
+    tasks = {}
+
+    def tid():
+        t = asyncio.current_task()
+        if t not in tasks:
+            tasks[t] = len(tasks)
+        return tasks[t]
+
+    def emit(*a):
+        out.write(json.dumps(a) + '\n')
+
+    def cps(s):
+        return ''.join('%06x' % ord(c) for c in s)
+
+    def key(ui):
+        return [ui.scheme, ui.hostname, ui.port]
+
+    def rulesets(parser):
+        return [{'names': [cps(n) for n in rs.robot_names], 'rules': [[1 if t == rs.ALLOW else 0, cps(p)] for t, p in rs.rules]}
+                for rs in parser._RobotExclusionRulesParser__rulesets]
+
+    o_process = web.WebProcessorSession.process
+
+    @compat.coroutine
+    def process(self):
+        ui = self._item_session.url_record.url_info
+        emit('pick', tid(), cps(ui.url), key(ui))
+        try:
+            res = yield from o_process(self)
+        finally:
+            emit('end', tid())
+        return res
+    web.WebProcessorSession.process = process
+
+    # consult_filters is also used for every scraped child URL; only the calls made by the two request checks count
+    inside = {}
+    o_filters = rule.FetchRule.consult_filters
+
+    def consult_filters(self, url_info, url_record, is_redirect=False):
+        res = o_filters(self, url_info, url_record, is_redirect=is_redirect)
+        kind = inside.pop(tid(), None)
+        if kind:
+            emit('filters', tid(), bool(res[0]), cps(url_info.url), key(url_info), kind)
+        return res
+    rule.FetchRule.consult_filters = consult_filters
+
+    o_initial = rule.FetchRule.check_initial_web_request
+
+    @compat.coroutine
+    def check_initial_web_request(self, item_session, request):
+        inside[tid()] = 'initial'
+        res = yield from o_initial(self, item_session, request)
+        return res
+    rule.FetchRule.check_initial_web_request = check_initial_web_request
+
+    o_sub = rule.FetchRule.check_subsequent_web_request
+
+    def check_subsequent_web_request(self, item_session, is_redirect=False):
+        inside[tid()] = 'sub'
+        return o_sub(self, item_session, is_redirect=is_redirect)
+    rule.FetchRule.check_subsequent_web_request = check_subsequent_web_request
+
+    o_fetch = robots.RobotsTxtChecker.fetch_robots_txt
+
+    @compat.coroutine
+    def fetch_robots_txt(self, request, file=None):
+        emit('fetchstart', tid(), key(request.url_info))
+        res = yield from o_fetch(self, request, file=file)
+        return res
+    robots.RobotsTxtChecker.fetch_robots_txt = fetch_robots_txt
+
+    o_load = robotstxt.RobotsTxtPool.load_robots_txt
+
+    def load_robots_txt(self, url_info, text):
+        o_load(self, url_info, text)
+        emit('stored', tid(), key(url_info), rulesets(self._parsers[self.url_info_key(url_info)]))
+    robotstxt.RobotsTxtPool.load_robots_txt = load_robots_txt
+
+    o_start = client.Session.start
+
+    @compat.coroutine
+    def start(self, request):
+        emit('req', tid(), request.url_info.url, key(request.url_info))
+        try:
+            resp = yield from o_start(self, request)
+        except BaseException as e:
+            emit('resperr', tid(), type(e).__name__)
+            raise
+        emit('resp', tid(), resp.status_code, resp.fields.get('Location'))
+        return resp
+    client.Session.start = start
+
+    o_status = psession.ItemSession.set_status
+
+    def set_status(self, status, *a, **k):
+        emit('status', tid(), getattr(status, 'value', str(status)))
+        return o_status(self, status, *a, **k)
+    psession.ItemSession.set_status = set_status
+
+    o_skip = psession.ItemSession.skip
+
+    def skip(self):
+        emit('status', tid(), 'skipped')
+        return o_skip(self)
+    psession.ItemSession.skip = skip
